@@ -3,7 +3,8 @@ C06 part C — the two parts of fs/remote/blob.go that part B left outside the m
 
 (1) the shared single-flight path  fetchRange → handleSharedFetch → copyFetchedChunks
     (`readAtShared`, explicit `bytesWriter`s, adversarial cache loss between the leader's commit and
-    the follower's copy, retry with the SAME writers);
+    the follower's copy, retry with restarted writers as of repo commit c4f4279; the code before
+    that commit is `readAtSharedOld`, kept for the documented counterexamples);
 (2) `Cache(offset, size)` with `prefetchChunkSize > chunkSize` (`cacheCalls`, `runCalls`).
 
 Only property theorems and their non-vacuity examples live here.
@@ -16,47 +17,59 @@ open SV.Region SV.Blob SV.Props.C06
 
 /-! ## 1. the shared fetch -/
 
-/-- A follower's (and, after retries, leader's) successful read is byte exact, PROVIDED cache reads
-are all-or-nothing per chunk: the cache satisfies `CacheOK` (entries are whole chunks) and entries
-are lost only as a whole (`Round.OK`: honest replies, `evict` losses only).  Any number of
-rounds, any map iteration order, any eviction pattern; the state invariant is kept and the fetched
-coverage only grows. -/
+/-- The shared fetch of the current code (writers restarted before a retry, commit c4f4279): a
+follower's (and, after retries, leader's) successful read is byte exact for every cache that never
+holds wrong bytes (`CachePrefixOK`: entries may be truncated), every number of rounds, every map
+iteration order and every cache loss between commit and copy, eviction and truncation alike.  The
+weak cache invariant and the fetched-set invariants are kept, coverage only grows. -/
 theorem shared_fetch_exact (P : Params) (B : Bytes) (hc : 0 < P.chunk) (hB : B.length = P.size)
-    (s : St) (hs : Inv P B s) (o n : Nat) (script : List Round) (hr : ∀ r ∈ script, r.OK B) :
-    Inv P B (readAtShared P s o n script).1 ∧
+    (s : St) (hcache : CachePrefixOK P B s.cache) (hwf : WF s.fetched)
+    (hin : InBlob P.size s.fetched) (o n : Nat) (script : List Round)
+    (hr : ∀ r ∈ script, r.Honest B) :
+    (CachePrefixOK P B (readAtShared P s o n script).1.cache ∧
+      WF (readAtShared P s o n script).1.fetched ∧
+      InBlob P.size (readAtShared P s o n script).1.fetched) ∧
     (∀ x, cov x s.fetched → cov x (readAtShared P s o n script).1.fetched) ∧
     ∀ k buf, (readAtShared P s o n script).2 = .ok k buf →
-      k = min n (P.size - o) ∧ buf.length = n ∧ buf.take k = slice B o k :=
-  readAtShared_exact P B hc hB s hs o n script hr
+      k = min n (P.size - o) ∧ buf.length = n ∧ buf.take k = slice B o k := by
+  obtain ⟨h1, h2, h3⟩ := readAtShared_exact P B hc hB s ⟨hcache, hwf, hin⟩ o n script hr
+  exact ⟨⟨h1.cacheQ, h1.wf, h1.inBlob⟩, h2, h3⟩
 
-/-- WITHOUT that hypothesis the read can succeed with wrong bytes (candidate finding).
-Blob `0..9`, chunk size 4, empty state, `ReadAt(p[0:6], 3)`; all server replies are honest.
-Round 1: another goroutine leads the fetch of chunks [0,3] [4,7] [8,9]; afterwards the cache
-delivers only 2 of the 4 bytes of [4,7]; the follower copies [0,3], then 2 bytes of [4,7]
-(`bytesWriter.current = 2`), `io.CopyN` fails, `fetchRange` is retried.  Round 2: the caller leads,
-`fetchRegions` writes the whole chunk [4,7] into the same writer, which places it 2 bytes too late:
-`ReadAt` returns 6, nil and `3 4 5 4 5 8` instead of `3 4 5 6 7 8`. -/
+/-- BEFORE commit c4f4279 (`readAtSharedOld`: the retry kept `bytesWriter.current`) the read could
+succeed with wrong bytes.  Blob `0..9`, chunk size 4, empty state, `ReadAt(p[0:6], 3)`; all server
+replies are honest.  Round 1: another goroutine leads the fetch of chunks [0,3] [4,7] [8,9];
+afterwards the cache delivers only 2 of the 4 bytes of [4,7]; the follower copies [0,3], then 2
+bytes of [4,7] (`bytesWriter.current = 2`), `io.CopyN` fails, `fetchRange` is retried.  Round 2:
+the caller leads, `fetchRegions` writes the whole chunk [4,7] into the same writer, which places
+it 2 bytes too late: `ReadAt` returned 6, nil and `3 4 5 4 5 8` instead of `3 4 5 6 7 8`.
+The current code returns the right bytes on the same script. -/
 theorem shared_fetch_inexact_after_partial_copy :
     Inv ⟨10, 4⟩ exB {} ∧
     (∀ r ∈ [Round.follow (.parts [⟨0, 9, exB⟩]) [.trunc ⟨4, 7⟩ 2] [⟨0, 3⟩, ⟨4, 7⟩, ⟨8, 9⟩],
             Round.lead (.parts [⟨0, 9, exB⟩])], r.Honest exB) ∧
-    (readAtShared ⟨10, 4⟩ {} 3 6
+    (readAtSharedOld ⟨10, 4⟩ {} 3 6
       [.follow (.parts [⟨0, 9, exB⟩]) [.trunc ⟨4, 7⟩ 2] [⟨0, 3⟩, ⟨4, 7⟩, ⟨8, 9⟩],
        .lead (.parts [⟨0, 9, exB⟩])]).2 = .ok 6 [3, 4, 5, 4, 5, 8] ∧
-    slice exB 3 6 = [3, 4, 5, 6, 7, 8] :=
-  ⟨inv_init _ _, by decide, by decide, by decide⟩
+    slice exB 3 6 = [3, 4, 5, 6, 7, 8] ∧
+    (readAtShared ⟨10, 4⟩ {} 3 6
+      [.follow (.parts [⟨0, 9, exB⟩]) [.trunc ⟨4, 7⟩ 2] [⟨0, 3⟩, ⟨4, 7⟩, ⟨8, 9⟩],
+       .lead (.parts [⟨0, 9, exB⟩])]).2 = .ok 6 [3, 4, 5, 6, 7, 8] :=
+  ⟨inv_init _ _, by decide, by decide, by decide, by decide⟩
 
-/-- The same without any loss between commit and copy: it is enough that the cache ALREADY holds
+/-- The same without any loss between commit and copy: it was enough that the cache ALREADY held
 a truncated entry for the chunk (that is why it was a miss); the leader's commit keeps the first
-value, the follower's copy is partial, the retry misplaces the data.
-State: entry [4,7] ↦ `4 5`; `ReadAt(p[0:4], 4)` returns 4, nil and `4 5 4 5`. -/
+value, the follower's copy is partial, the old retry misplaced the data.
+State: entry [4,7] ↦ `4 5`; `ReadAt(p[0:4], 4)` returned 4, nil and `4 5 4 5`. -/
 theorem shared_fetch_inexact_with_truncated_entry :
     CachePrefixOK ⟨10, 4⟩ exB [(⟨4, 7⟩, [4, 5])] ∧
-    (readAtShared ⟨10, 4⟩ { cache := [(⟨4, 7⟩, [4, 5])], fetched := [] } 4 4
+    (readAtSharedOld ⟨10, 4⟩ { cache := [(⟨4, 7⟩, [4, 5])], fetched := [] } 4 4
       [.follow (.parts [⟨4, 7, [4, 5, 6, 7]⟩]) [] [⟨4, 7⟩],
        .lead (.parts [⟨4, 7, [4, 5, 6, 7]⟩])]).2 = .ok 4 [4, 5, 4, 5] ∧
-    slice exB 4 4 = [4, 5, 6, 7] := by
-  refine ⟨?_, by decide, by decide⟩
+    slice exB 4 4 = [4, 5, 6, 7] ∧
+    (readAtShared ⟨10, 4⟩ { cache := [(⟨4, 7⟩, [4, 5])], fetched := [] } 4 4
+      [.follow (.parts [⟨4, 7, [4, 5, 6, 7]⟩]) [] [⟨4, 7⟩],
+       .lead (.parts [⟨4, 7, [4, 5, 6, 7]⟩])]).2 = .ok 4 [4, 5, 6, 7] := by
+  refine ⟨?_, by decide, by decide, by decide⟩
   intro c d h
   simp only [Cache.get, List.find?_cons, List.find?_nil] at h
   split at h
@@ -65,9 +78,20 @@ theorem shared_fetch_inexact_with_truncated_entry :
     exact ⟨by decide, by decide⟩
   · simp at h
 
-/-- Even then only bytes can be wrong: under any cache loss (truncation included) the weak cache
-invariant, the fetched-set invariants and coverage monotonicity hold, and a successful result
-reports the right count. -/
+/-- The old code was exact under the extra hypothesis that cache reads are all-or-nothing per chunk
+(`CacheOK`, whole-entry losses only: `Round.OK`) — the hypothesis the two counterexamples
+violate. -/
+theorem shared_fetch_old_exact_if_all_or_nothing (P : Params) (B : Bytes) (hc : 0 < P.chunk)
+    (hB : B.length = P.size) (s : St) (hs : Inv P B s) (o n : Nat) (script : List Round)
+    (hr : ∀ r ∈ script, r.OK B) :
+    Inv P B (readAtSharedOld P s o n script).1 ∧
+    ∀ k buf, (readAtSharedOld P s o n script).2 = .ok k buf →
+      k = min n (P.size - o) ∧ buf.length = n ∧ buf.take k = slice B o k := by
+  obtain ⟨h1, _, h3⟩ := readAtSharedOld_exact P B hc hB s hs o n script hr
+  exact ⟨h1, h3⟩
+
+/-- The state invariants do not depend on the cache-invariant flavour: for any `Q`-style invariant
+the generic statement is `readAtShared_state`; here for `CachePrefixOK`, with the count. -/
 theorem shared_fetch_state_any_loss (P : Params) (B : Bytes) (hc : 0 < P.chunk)
     (s : St) (hcache : CachePrefixOK P B s.cache) (hwf : WF s.fetched)
     (hin : InBlob P.size s.fetched) (o n : Nat) (script : List Round)
@@ -81,18 +105,12 @@ theorem shared_fetch_state_any_loss (P : Params) (B : Bytes) (hc : 0 < P.chunk)
     ⟨hcache, hwf, hin⟩ o n script hr
   exact ⟨h1.cacheQ, h1.wf, h1.inBlob, h2, h3⟩
 
-/-- The repair: if a retry starts with `bytesWriter.current = 0` again (`readAtSharedFixed`, which
-differs from the model of the code in exactly that), the shared path is exact for every cache
-that never holds wrong bytes, truncated entries and truncating losses included. -/
-theorem shared_fetch_exact_if_writers_reset (P : Params) (B : Bytes) (hc : 0 < P.chunk)
-    (hB : B.length = P.size) (s : St) (hcache : CachePrefixOK P B s.cache) (hwf : WF s.fetched)
-    (hin : InBlob P.size s.fetched) (o n : Nat) (script : List Round)
-    (hr : ∀ r ∈ script, r.Honest B) :
-    CachePrefixOK P B (readAtSharedFixed P s o n script).1.cache ∧
-    ∀ k buf, (readAtSharedFixed P s o n script).2 = .ok k buf →
-      k = min n (P.size - o) ∧ buf.length = n ∧ buf.take k = slice B o k := by
-  obtain ⟨h1, _, h3⟩ := readAtSharedFixed_exact P B hc hB s ⟨hcache, hwf, hin⟩ o n script hr
-  exact ⟨h1.cacheQ, h3⟩
+/-- Before and after the commit the code is the same function until a copy fails. -/
+theorem shared_fetch_same_until_copy_fails (P : Params) (pd : Pending) (s : St) (reply : Reply)
+    (rest : List Round) :
+    fetchRangeShared P pd s (.lead reply :: rest) =
+      fetchRangeSharedOld P pd s (.lead reply :: rest) :=
+  fetchRangeShared_lead_eq_old P pd s reply rest
 
 /-- On the leader path the explicit-writer model is the (differentially validated) `readAt`: same
 state, same outcome, same buffer, for every reply, honest or not. -/
@@ -120,8 +138,8 @@ theorem shared_lead_terminates (P : Params) (pd : Pending) (s : St) (reply : Rep
 
 /-- A follower round does exactly one of: reject a script whose `order` is not a permutation of
 the caller's chunks; return the leader's error; finish after a complete copy; or — some `Get` or
-copy failed — call `fetchRange` again on the state after the loss with the writers as the failed
-copy left them (the next round is then again a leader or a follower round). -/
+copy failed — restart the writers and call `fetchRange` again on the state after the loss (the
+next round is then again a leader or a follower round). -/
 theorem shared_follow_step (P : Params) (pd : Pending) (s : St) (lr : Reply)
     (loss : List Loss) (order : List Chunk) (rest : List Round) :
     let r := fetchRangeShared P pd s (.follow lr loss order :: rest)
@@ -133,7 +151,7 @@ theorem shared_follow_step (P : Params) (pd : Pending) (s : St) (lr : Reply)
     (order.isPerm pd.missing = true ∧ L.2.isSome ∧ C.2 = true ∧
       r = (s'', finish P { pd with ws := C.1 })) ∨
     (order.isPerm pd.missing = true ∧ L.2.isSome ∧ C.2 = false ∧
-      r = fetchRangeShared P { pd with ws := C.1 } s'' rest) :=
+      r = fetchRangeShared P { pd with ws := resetWs C.1 } s'' rest) :=
   fetchRangeShared_follow P pd s lr loss order rest
 
 /-- The retry loop is bounded by the script: it runs out of rounds only if every round was a
@@ -158,9 +176,10 @@ example : (readAtShared ⟨10, 4⟩ {} 3 6 [.follow (.parts [⟨0, 9, exB⟩]) [
     = .badScript := by decide
 example : (readAtShared ⟨10, 4⟩ {} 3 6 [.follow .fail [] [⟨0, 3⟩, ⟨4, 7⟩, ⟨8, 9⟩]]).2 = .err := by
   decide
--- the repaired retry on the scenario of `shared_fetch_inexact_after_partial_copy`
-example : (readAtSharedFixed ⟨10, 4⟩ {} 3 6
-    [.follow (.parts [⟨0, 9, exB⟩]) [.trunc ⟨4, 7⟩ 2] [⟨0, 3⟩, ⟨4, 7⟩, ⟨8, 9⟩],
+-- truncation, then again a follower round with a complete entry
+example : (readAtShared ⟨10, 4⟩ {} 3 6
+    [.follow (.parts [⟨0, 9, exB⟩]) [.trunc ⟨4, 7⟩ 3] [⟨4, 7⟩, ⟨0, 3⟩, ⟨8, 9⟩],
+     .follow (.parts [⟨0, 9, exB⟩]) [.evict ⟨4, 7⟩] [⟨0, 3⟩, ⟨4, 7⟩, ⟨8, 9⟩],
      .lead (.parts [⟨0, 9, exB⟩])]).2 = .ok 6 [3, 4, 5, 6, 7, 8] := by decide
 
 /-! ## 2. `Cache` with `prefetchChunkSize > chunkSize` -/
